@@ -496,6 +496,16 @@ def rand_c05(seed, tier, cases=None):
                 ops.append(dict(op="set", id=ident, len=rng.choice([0, 1, 2, 3, 4, 8, 15, 16, 17, 32, 100, 255, 256, 300, ident, rng.randint(0, 40)]), salt=j + 1, src=0))
         st = rng.choice(starts)
         out.append(dict(fam="C05", start=st, ops=ops, depth=n, **{"class": st + "_rand"}))
+    # long histories: 120 operations on one header (many more elements than any enumerated history builds up)
+    for st in starts:
+        ops = []
+        for j in range(120):
+            ident = rng.choice([1, 2, 3, 4, 5, 6, 7, 8, 9, 10, 11, 12, 13, 14, 15, 16, 100, 200, 255])
+            if rng.random() < 0.3:
+                ops.append(dict(op="del", id=ident, len=0, salt=j % 200 + 1, src=0))
+            else:
+                ops.append(dict(op="set", id=ident, len=rng.choice([1, 2, 3, 4, 8, 16, rng.randint(1, 16)]), salt=j % 200 + 1, src=0))
+        out.append(dict(fam="C05", start=st, ops=ops, depth=len(ops), **{"class": st + "_long_run"}))
     return out
 
 
@@ -733,6 +743,22 @@ def rand_c06(seed, tier, cases=None):
                         payloader=rng.choice(["g711", "opus", "h264", "vp8", "g722", "vp8pid"]), seqstart=rng.choice([0, 65535, 65530, rng.randint(0, 65535)]),
                         ts0=rng.choice([[255, 255, 255, 255], [255, 255, 250, 0], [rng.randint(0, 255) for _ in range(4)]]), abs0=rng.choice([0, 0, 1, 14, 15]),
                         inst0=[rng.randint(0, 2000000000), rng.randint(0, 511)], ops=ops, depth=len(ops), **{"class": "rand"}))
+    # long runs: hundreds of calls on one packetizer (counters far from where they started), and calls that
+    # emit hundreds of packets (a unit cut into 300+ fragments)
+    for pl, mtu, nops, ln in (("g711", 64, 400, 120), ("vp8pid", 100, 300, 150), ("h264", 80, 300, 100), ("h264", 64, 3, 20000), ("g711", 64, 2, 30000)):
+        ops = []
+        for j in range(nops):
+            smp = [0, 0, 3, 192]
+            if j % 37 == 5:
+                ops.append(dict(op="skip", len=0, salt=0, samples=smp, n=0))
+            elif j % 53 == 7:
+                ops.append(dict(op="pad", len=0, salt=0, samples=[0, 0, 0, 0], n=2))
+            elif j == 150:
+                ops.append(dict(op="enable", len=0, salt=0, samples=[0, 0, 0, 0], n=5))
+            else:
+                ops.append(dict(op="packetize", len=max(1, ln + (j % 7) - 3), salt=j % 200 + 1, samples=smp, n=0))
+        out.append(dict(fam="C06", mtu=mtu, pt=96, ssrc=[1, 2, 3, 4], payloader=pl, seqstart=rng.choice([40000, 65000]), ts0=[255, 255, 0, 0], abs0=0,
+                        inst0=[1700000000, 3], ops=ops, depth=len(ops), **{"class": "long_run"}))
     return out
 
 
@@ -783,6 +809,11 @@ def rand_c08(seed, tier, cases=None):
             ln = rng.choice([rng.randint(0, 50), rng.randint(0, 400), rng.randint(0, 3000), 20000 if rng.random() < 0.05 else 7])
             calls.append(dict(mtu=mtu, shape=rng.choice(_shapes_for(kind)), len=ln, salt=rng.randint(0, 200)))
         out.append(dict(fam="C08", kind=kind, scribble=True, calls=calls, **{"class": kind + "_rand"}))
+    # long runs: 250 calls on one payloader, and inputs cut into 500+ fragments
+    for kind in C08_KINDS:
+        shapes = _shapes_for(kind)
+        out.append(dict(fam="C08", kind=kind, scribble=True, calls=[dict(mtu=40, shape=shapes[(c * 5) % len(shapes)], len=1 + (c * 13) % 120, salt=c % 200) for c in range(250)], **{"class": kind + "_long_run"}))
+        out.append(dict(fam="C08", kind=kind, scribble=True, calls=[dict(mtu=11, shape=shapes[-1], len=6000, salt=2), dict(mtu=11, shape="pat", len=6000, salt=3)], **{"class": kind + "_many_fragments"}))
     return out
 
 
@@ -824,6 +855,15 @@ def rand_c09(seed, tier, cases=None):
                 b[0] = rng.choice([0x1C, 0x7C, 0x18, 0x78, 0x62, 0x60, 0x64, 0x90, 0x80, 0xFF, 0xAA, 0x10, 0x50, 0x30, 0x00])
             items.append(b)
         out.append(dict(fam="C09", kind=kind, src="bytes", items=items, probes=True, scribble=True, **{"class": kind + "_rand"}))
+    # long runs: 300 payloads into one receiver
+    for kind in C09_KINDS:
+        items = []
+        for c in range(300):
+            b = rbytes(rng, rng.choice([0, 1, 2, 3, 5, 8, 13, 30]))
+            if b and rng.random() < 0.7:
+                b[0] = rng.choice([0x1C, 0x7C, 0x18, 0x78, 0x62, 0x60, 0x64, 0x90, 0x80, 0xFF, 0xAA, 0x10, 0x50, 0x30, 0x00, 0x65, 0x26])
+            items.append(b)
+        out.append(dict(fam="C09", kind=kind, src="bytes", items=items, probes=True, scribble=True, **{"class": kind + "_long_run"}))
     return out
 
 
@@ -867,6 +907,11 @@ def rand_c11(seed, tier, cases=None):
                 f["pidon"] = rng.random() < 0.5   # the application flips EnablePictureID
         out.append(dict(fam="C11", kind="payload", valid=True, mtu=mtu, pidon=rng.random() < 0.7, startid=rng.choice([0, 1, 120, 126, 127, 128, 300, 32760, 32766, 32767, rng.randint(0, 32767)]),
                         frames=frames, **{"class": "rand_payload"}))
+    # long runs: 400 frames on one payloader (picture id crosses 127/128 and wraps), and frames cut into 600+ packets
+    for pid, start in ((True, 0), (True, 32500), (False, 0)):
+        out.append(dict(fam="C11", kind="payload", valid=True, mtu=20, pidon=pid, startid=start,
+                        frames=[dict(len=1 + (j * 13) % 60, salt=j % 200, fillv=-1) for j in range(400)], **{"class": "long_run"}))
+    out.append(dict(fam="C11", kind="payload", valid=True, mtu=12, pidon=True, startid=126, frames=[dict(len=6000, salt=4, fillv=-1), dict(len=5, salt=5, fillv=-1)], **{"class": "many_fragments"}))
     return out
 
 
@@ -954,6 +999,16 @@ def rand_c10(seed, tier, cases=None):
         if pending:
             calls.append(dict(units=[pending.pop(), _nal(5, 2, 6, rng)], scs=[3, 3]))
         out.append(dict(fam="C10", kind="payloader", mtu=mtu, stapa=stap, calls=calls, **{"class": "rand_payloader"}))
+    # a unit cut into 800 fragments, and 300 calls on one payloader (parameter sets now and then)
+    out.append(dict(fam="C10", kind="payloader", mtu=7, stapa=True, calls=[dict(units=[_nal(5, 3, 4000, rng), _nal(1, 2, 9, rng)], scs=[4, 3])], **{"class": "many_fragments"}))
+    for stap in (True, False):
+        calls = []
+        for j in range(300):
+            if j % 50 == 10:
+                calls.append(dict(units=[_nal(7, 3, 9 + j % 5, rng), _nal(8, 3, 5, rng), _nal(5, 3, 30 + j % 40, rng)], scs=[4, 4, 4]))
+            else:
+                calls.append(dict(units=[_nal(1, 2, 3 + (j * 7) % 70, rng)], scs=[3 + j % 2]))
+        out.append(dict(fam="C10", kind="payloader", mtu=40, stapa=stap, calls=calls, **{"class": "long_run"}))
     return out
 
 
@@ -1024,6 +1079,13 @@ def rand_c12(seed, tier, cases=None):
             f["body"] = max(0, f["body"])
         out.append(dict(fam="C12", kind="payload", valid=True, mtu=mtu, flexible=rng.random() < 0.5, startid=rng.choice([0, 32767, 32766, rng.randint(0, 32767)]),
                         frames=frames, **{"class": "rand_payload"}))
+    for flex in (True, False):
+        hk = dict(profile=0, existing=False, idx=0, nonkey=False, show=True, errres=False, deep=False, cs=2, range=False, ssx=True, ssy=True, w=640, h=480)
+        hn = dict(hk, nonkey=True)
+        out.append(dict(fam="C12", kind="payload", valid=True, mtu=40, flexible=flex, startid=32500,
+                        frames=[dict(hdr=hk if j % 60 == 0 else hn, body=1 + (j * 11) % 90, salt=j % 200, fillv=-1) for j in range(400)], **{"class": "long_run"}))
+        out.append(dict(fam="C12", kind="payload", valid=True, mtu=20, flexible=flex, startid=5,
+                        frames=[dict(hdr=hk, body=6000, salt=4, fillv=-1), dict(hdr=hn, body=5, salt=5, fillv=-1)], **{"class": "many_fragments"}))
     return out
 
 
@@ -1067,6 +1129,12 @@ def rand_c14(seed, tier, cases=None):
             units.append([t << 1 | layer >> 5, (layer & 31) << 3 | tid] + [rng.randint(1, 255) for _ in range(n - 2)])
         out.append(dict(fam="C14", kind="payload", valid=True, mtu=mtu, donl=rng.random() < 0.3, skipagg=rng.random() < 0.4,
                         calls=[dict(units=units, scs=[rng.choice([3, 4]) for _ in units])], **{"class": "rand_payload"}))
+    # a unit cut into 800+ fragments, and 300 calls on one payloader (the DONL counter runs on)
+    for donl in (False, True):
+        out.append(dict(fam="C14", kind="payload", valid=True, mtu=9, donl=donl, skipagg=False, calls=[dict(units=[unit(19, 4000), unit(1, 5)], scs=[4, 3])], **{"class": "many_fragments"}))
+        out.append(dict(fam="C14", kind="payload", valid=True, mtu=40, donl=donl, skipagg=False,
+                        calls=[dict(units=[unit(1, 3 + (j * 7) % 70)] + ([unit(32, 6), unit(33, 5)] if j % 40 == 3 else []), scs=[3] * (3 if j % 40 == 3 else 1)) for j in range(300)],
+                        **{"class": "long_run"}))
     return out
 
 
@@ -1134,6 +1202,12 @@ def rand_c13(seed, tier, cases=None):
         if rng.random() < 0.3:
             obus[-1]["hassize"] = False
         out.append(dict(fam="C13", kind="payload", valid=True, mtu=mtu, obus=obus, stream=_obu_stream(obus), **{"class": "rand_obus"}))
+    # an OBU cut into 600+ packets, and 40 OBUs in one call
+    many = [dict(type=6, ext=False, tid=0, sid=0, r3=0, r1=0, hassize=True, payload=[(i * 7) % 251 for i in range(5000)]),
+            dict(type=6, ext=False, tid=0, sid=0, r3=0, r1=0, hassize=True, payload=[1, 2, 3])]
+    out.append(dict(fam="C13", kind="payload", valid=True, mtu=10, obus=many, stream=_obu_stream(many), **{"class": "many_fragments"}))
+    lots = [dict(type=6 if i else 1, ext=i % 9 == 8, tid=0, sid=0, r3=0, r1=0, hassize=True, payload=[(i + k) % 251 for k in range(1 + (i * 5) % 40)]) for i in range(40)]
+    out.append(dict(fam="C13", kind="payload", valid=True, mtu=64, obus=lots, stream=_obu_stream(lots), **{"class": "many_obus"}))
     return out
 
 
